@@ -12,6 +12,8 @@ def run(chk):
     from checks import main_wiring as _mw
     _mw.run(chk, [chk.pid])
     _lean.check_theorems(chk, "Poupool.Properties.Compose", COMPOSE)
+    # the chain Filtration -> Disinfection -> PWM in ONE composed system (both pair theorems apply to the same state)
+    _lean.check_theorems(chk, "Poupool.Properties.Compose3", ["Poupool.Compose3Props." + t for t in ("chain_halt_ph", "chain_halt_cl", "chain_no_treatment_ph", "chain_no_treatment_cl", "chain_off_when_served_ph", "chain_off_when_served_cl", "chain_hypotheses_needed_ph", "chain_hypotheses_needed_cl", "chainPh_demo_halt", "chainPh_demo_wash", "chainCl_demo_halt", "chainCl_demo_wash")])
 
 
 def search(chk):
